@@ -1,10 +1,10 @@
 package checks
 
 import (
+	"time"
 	"bytes"
 	"fmt"
 	"os"
-	"os/exec"
 	"reflect"
 	"strconv"
 	"sort"
@@ -67,10 +67,10 @@ func c04FreshAnswers(c *core.Ctx, j int) []string {
 		return a
 	}
 	self, _ := os.Executable()
-	out, err := exec.Command(self, "C04", "--sub", "c04fresh", "--home", c.Home, "--repo", c.Repo, "--", strconv.Itoa(j)).Output()
+	out, err, _ := runChild(5*time.Minute, nil, self, "C04", "--sub", "c04fresh", "--home", c.Home, "--repo", c.Repo, "--", strconv.Itoa(j))
 	var a []string
 	if err == nil {
-		a = strings.Split(strings.TrimSpace(string(out)), "\n")
+		a = strings.Split(strings.TrimSpace(out), "\n")
 	}
 	c04FreshCache[j] = a
 	return a
